@@ -532,7 +532,7 @@ def conventions_stream(rep, rng, drv, tier):
         # the receivers without a dagger (added later: fewer each, larger, nearly always walked so
         # that connected ones have parallel branches in the wrong order for either preference)
         late = kit.free or kit.name == "drawing-attributes"
-        for idx in range((7 if quick else 60) if late else per_kit):
+        for idx in range((7 if quick else 40) if late else per_kit):
             r = random.Random(rng.getrandbits(64))
             connected = r.random() < (0.8 if late else 0.7)
             snakes = 0 if kit.name == "monoidal" else r.choice([0, 1, 1, 2])
